@@ -174,7 +174,7 @@ func TestC13(t *testing.T) {
 			evals++
 			nt++
 			cl["v3-decoded-all-X-twin"]++
-			cs := scoreCase3{Level: 2, NilRecv: spell, Input: vec.String()}
+			cs := scoreCase3{Level: 2, NilRecv: spell, PreQuery: !spell && i%2 == 0, Input: vec.String()}
 			if c.rec.SampleCount() < 3 && i%1301 == 3 {
 				c.rec.Sample(cs)
 			}
@@ -195,7 +195,7 @@ func TestC13(t *testing.T) {
 		if !hasT || tt == [3]int{4, 4, 3} {
 			cl["v2-temporal-absent-or-all-ND"]++
 		}
-		evalEnum(c, "v2decode", scoreCase2{Level: 2, NilRecv: i%2 == 1, Input: f.Vector}, checkC13v2Decode, &nviol)
+		evalEnum(c, "v2decode", scoreCase2{Level: 2, NilRecv: i%2 == 1, PreQuery: i%4 == 0, Input: f.Vector}, checkC13v2Decode, &nviol)
 	})
 	{
 		eNoT, err1 := shape2(false, true)
